@@ -365,6 +365,41 @@ def probes(ctx):
                                     key = "arasim-attenuation-nonpositive-below-3171m"
                                 ctx.fail(key, "%s.attenuation_length(%r, %r) = %r is not positive and finite" % (cls, float(z), float(f), s),
                                          {"kind": "atten_positive", **tag, "z": float(z), "f": float(f)})
+    # parameters re-assigned after construction: every method must follow the CURRENT public parameters
+    # (what a freshly built model with those parameters reports)
+    for cls in CLASSES:
+        for _ in range(ctx.n(3, 20)):
+            p0, p1 = rand_params(rng, cls, default=rng.random() < 0.5), rand_params(rng, cls)
+            obj = build(cls, p0)
+            z0 = 0.5 * (p0["lo"] + p0["hi"])
+            with np.errstate(all="ignore"):
+                obj.index(z0), obj.gradient(z0), obj.depth_with_index(1.5), obj.attenuation_length(z0, 3e8)   # first use
+                changed = rng.sample(["n0", "k", "a", "valid_range", "index_above", "index_below"], rng.randint(1, 3))
+                cur = dict(p0)
+                for name in changed:
+                    if name == "valid_range":
+                        obj.valid_range = (p1["lo"], p1["hi"]); cur["lo"], cur["hi"] = p1["lo"], p1["hi"]
+                    elif name == "index_above":
+                        obj.index_above = p1["above"]; cur["above"] = p1["above"]
+                    elif name == "index_below":
+                        obj.index_below = p1["below"]; cur["below"] = p1["below"]
+                    else:
+                        setattr(obj, name, p1[name]); cur[name] = p1[name]
+                if not cur["k"] < cur["n0"] - 1.0:
+                    continue
+                fresh = build(cls, cur)
+                for z in [cur["lo"], cur["hi"], 0.5 * (cur["lo"] + cur["hi"]), cur["hi"] + 3.0, cur["lo"] - 3.0, rng.uniform(cur["lo"], cur["hi"])]:
+                    ctx.case(key=(cls, "reassign", tuple(changed), float(z), json.dumps(cur, sort_keys=True)))
+                    got = (float(obj.index(z)), [float(v) for v in obj.gradient(z)], float(obj.depth_with_index(float(fresh.index(z)))),
+                           float(obj.attenuation_length(z, 3e8)))
+                    want = (float(fresh.index(z)), [float(v) for v in fresh.gradient(z)], float(fresh.depth_with_index(float(fresh.index(z)))),
+                            float(fresh.attenuation_length(z, 3e8)))
+                    if not (close(got[0], want[0], 1e-13, 0) and close(got[1], want[1], 1e-13, 1e-300) and
+                            (close(got[2], want[2], 1e-12, 1e-12)) and close(got[3], want[3], 1e-12, 0)):
+                        ctx.fail("reassign:%s:%s:%r" % (cls, ",".join(changed), float(z)),
+                                 "%s after assigning %s: (index, gradient, depth_with_index, attenuation) at z=%r is %r, a freshly built model with the same parameters gives %r" % (
+                                     cls, changed, float(z), got, want),
+                                 {"kind": "reassign", "class": cls, "params": cur, "initial": p0, "changed": changed, "z": float(z)})
     # the documented AraSim extrapolation defect, probed at a fixed point so the finding is always evaluated
     ar = im.ArasimIce()
     v = float(ar.attenuation_length(-3300.0, 3e8))
